@@ -115,7 +115,8 @@ def model_vs_impl(tag, cases, obs, mask, broken, sync_every=1):
         exprs.append('(obs_eqb %s %s %s)' % (k, coq_async_handle(c, mask), S.coq_obs(obs[c['id']]['async']))); tags.append(('a', i))
         if n % sync_every == 0 or obs[c['id']]['sync']['res'] != obs[c['id']]['async']['res']:
             exprs.append('(obs_eqb %s %s %s)' % (k, S.coq_handle(c, mask), S.coq_obs(obs[c['id']]['sync']))); tags.append(('s', i))
-    shard = max(20, (len(exprs) + NPROC - 1) // NPROC)
+    nsh = min(NPROC, 8)      # coqc start-up (loading the models) dominates on a loaded machine: few, larger shards
+    shard = max(20, (len(exprs) + nsh - 1) // nsh)
     fails, errs = coq_check_cases(tag, HEADER, exprs, shard=shard)
     if errs: broken.append({'kind': 'correspondence', 'name': 'Coq evaluation of the server models failed', 'log': errs[0]})
     return [tags[j][1] for j in fails if tags[j][0] == 'a'], [tags[j][1] for j in fails if tags[j][0] == 's']
